@@ -453,3 +453,48 @@ func (p *Prog) helperMapKeys(call *ssa.Call, mi int) ([]string, bool) {
 	}
 	return keys, ok && n > 0
 }
+
+// globalIntTable: the entries of a package-level map[string]<int> that is filled only by its initialiser (a composite
+// literal, or updates in init) with constant keys and constant values, never deleted from and never handed elsewhere.
+func (p *Prog) globalIntTable(g *ssa.Global) (map[string]int64, bool) {
+	mt, ok := deref(g.Type()).Underlying().(*types.Map)
+	if !ok || intBits(mt.Elem()) == 0 {
+		return nil, false
+	}
+	t := p.mapTableOf(g, nil)
+	if len(t.Deletes) > 0 || len(t.Escapes) > 0 || len(t.HelperKeys) > 0 {
+		return nil, false
+	}
+	out := map[string]int64{}
+	add := func(u *ssa.MapUpdate) bool {
+		if u.Parent().Name() != "init" {
+			return false
+		}
+		k, okk := constString(stripConv(u.Key))
+		v, okv := constInt(u.Value)
+		if !okk || !okv {
+			return false
+		}
+		out[k] = v
+		return true
+	}
+	for _, u := range t.Updates {
+		if !add(u) {
+			return nil, false
+		}
+	}
+	for _, st := range t.Assigns {
+		mk, ok := st.Val.(*ssa.MakeMap)
+		if !ok || st.Parent().Name() != "init" {
+			return nil, false
+		}
+		for _, r := range *mk.Referrers() {
+			if u, ok := r.(*ssa.MapUpdate); ok && u.Map == ssa.Value(mk) {
+				if !add(u) {
+					return nil, false
+				}
+			}
+		}
+	}
+	return out, len(out) > 0
+}
